@@ -615,4 +615,4 @@ def zero_arm(body, evs):
     """for poll bodies only paths through the Zero arm are channel operations (other arms: F rules)"""
     if fam.body_kind(body)[0] != 'future':
         return True
-    return any(e.name == 'BR' and e.data['label'] == 'fstate' and e.data['outcome'] == 'Zero' for e in evs)
+    return any(e.name == 'RD' and e.data['field'] == 'recv_count' and e.sec is not None for e in evs)
